@@ -88,7 +88,7 @@ class Check:
         if not reshaped:
             return
         for r in self.results:
-            if r['verdict'] != VIOLATION:
+            if r['verdict'] != VIOLATION or str(r.get('rule', '')).endswith('.s'):      # (the hidden-state rule reads bodies, not argument lists)
                 continue
             words = set(_re.findall(r'[A-Za-z_][A-Za-z0-9_]*', str(r.get('key', '')) + ' ' + str(r.get('detail', ''))))
             hit = sorted(words & set(reshaped))
